@@ -41,9 +41,10 @@ INV = ("YieldExactlyOnce", "YieldOnlyTarget", "YieldTrueDistance", "YieldNonDecr
 DEVIATIONS = {   # name in MCGraphQ -> (config kind, smallest graph size that shows it)
     "DevLIFO": ("bfs", 5, 5), "DevStart": ("trav", 1, 3), "DevDirection": ("trav", 1, 4), "DevDirZero": ("trav", 1, 3),
     "DevRing": ("trav", 1, 3), "DevValence": ("trav", 1, 3), "DevNonInduced": ("match", 1, 3), "DevWildcard": ("match", 1, 3),
+    "DevStaleAttr": ("hist", 3, 3), "DevStaleAdj": ("hist", 3, 3),     # memoised conversion / adjacency: histories only
 }
 TRACE_CFG = dict(spec="TraceSpec", constants={"MinN": 0, "MaxN": 0, "Elems": "<- NoElems", "PatPool": "<- NoPat",
-                                              "Kinds": "<- NoKinds", "DeclLimit": 700, "Deviations": "<- DevNone"})
+                                              "Kinds": "<- NoKinds", "DeclLimit": 700, "MaxEdits": 0, "Deviations": "<- DevNone"})
 
 
 def mc_cfg(kind, minn, maxn, dev="DevNone", elems=None):
@@ -51,11 +52,14 @@ def mc_cfg(kind, minn, maxn, dev="DevNone", elems=None):
         c = {"Elems": "<- ElC", "PatPool": "<- NoPat", "Kinds": "<- KTrav"}
     elif kind == "bfs":
         c = {"Elems": "<- ElC", "PatPool": "<- NoPat", "Kinds": "<- KBfs"}
+    elif kind == "hist":
+        c = {"Elems": "<- ElCN", "PatPool": "<- Pat2", "Kinds": "<- KHist"}
     elif kind == "defs":
         c = {"Elems": "<- ElC", "PatPool": "<- NoPat", "Kinds": "<- KDefs"}
     else:
         c = {"Elems": f"<- {elems or 'ElC'}", "PatPool": "<- Pat3", "Kinds": "<- KMatch"}
-    return dict(spec="Spec", constants={"MinN": minn, "MaxN": maxn, **c, "DeclLimit": 4096, "Deviations": f"<- {dev}"},
+    return dict(spec="Spec", constants={"MinN": minn, "MaxN": maxn, **c, "DeclLimit": 4096,
+                                        "MaxEdits": 1 if kind == "hist" else 0, "Deviations": f"<- {dev}"},
                 invariants=INV, view="View")
 
 
@@ -75,7 +79,12 @@ def model_runs(ev, tier):
                             role="matcher model: EmbRec = EmbDecl for every target with <= 4 atoms x every connected pattern "
                                  "with <= 3 atoms over {C, N, Unknown}",
                             tag="c15mm", workers=WORKERS, require_actions=("Match",)),
+        lambda: model_check(ev, "MCGraphQ", mc_cfg("hist", 3, 3),
+                            role="history model: query, in-place edit (element of an atom / bond added or removed), query again on "
+                                 "every 3-atom graph over {C, N} x patterns with <= 2 atoms; every query is decided on the edited graph",
+                            tag="c15mh", workers=WORKERS, require_actions=("DoEdit", "Match", "DoBegin", "DoYield")),
     ]
+    nmodel = len(jobs)
     for dev, (kind, minn, maxn) in DEVIATIONS.items():
         jobs.append(lambda dev=dev, kind=kind, minn=minn, maxn=maxn:
                     expect_violation("MCGraphQ", mc_cfg(kind, minn, maxn, dev), INV, tag="c15dev", workers=2))
@@ -83,7 +92,7 @@ def model_runs(ev, tier):
         futs = [ex.submit(j) for j in jobs]
         res = [f.result() for f in futs]
     ev.set(model_wall_s=round(time.time() - t0, 1))
-    return {dev: r.violated for dev, r in zip(DEVIATIONS, res[3:])}
+    return {dev: r.violated for dev, r in zip(DEVIATIONS, res[nmodel:])}
 
 
 # --------------------------------------------------------------------------------------------------
@@ -108,8 +117,13 @@ def plan(tier, seed):
         jobs.append(("random n<=12", G.job_random, (lo, hi, seed, 12)))
     for lo, hi in slices(nbig, 8):
         jobs.append(("random n<=40", G.job_random, (lo, hi, seed, 40)))
+    nh = (1600, 400) if big else (160, 0)
+    for lo, hi in slices(nh[0], 100 if big else 80):
+        jobs.append(("history n<=8", G.job_history, (lo, hi, seed, 8)))
+    for lo, hi in slices(nh[1], 100):
+        jobs.append(("history n<=14", G.job_history, (lo, hi, seed, 14)))
     # costly slices first: better packing of the lanes
-    cost = lambda j: (j[2][2] - j[2][1]) * (60 if "n<=40" in j[0] else 8 if "random" in j[0] else 12 if "match" in j[0] else 1)
+    cost = lambda j: (j[2][2] - j[2][1]) * (60 if "n<=40" in j[0] else 8 if "random" in j[0] else 12 if "match" in j[0] else 10 if "history" in j[0] else 1)
     jobs.sort(key=lambda j: -cost(j))
     return jobs
 
@@ -125,6 +139,8 @@ def nontrivial(e):
         return len(e["nbrs"]) >= 1
     if k == "match":
         return e["pn"] >= 2
+    if k == "matchp":
+        return len(e["pel"]) >= 2
     return False
 
 
@@ -133,14 +149,19 @@ def digest(graph_ev, e):
                                       sort_keys=True).encode(), digest_size=8).digest()
 
 
+SETUP_EVENTS = ("graph", "pattern", "edit", "pedit", "edit-raised")     # not queries: a trace stuck there is outside C15
+
+
 class Tally:
     def __init__(self):
-        self.events = {"bfs": 0, "ring": 0, "local": 0, "match": 0, "raised": 0}
+        self.events = {"bfs": 0, "ring": 0, "local": 0, "match": 0, "matchp": 0, "raised": 0}
         self.yields = 0
         self.maps = 0
         self.graphs = 0
         self.traces = 0
         self.distinct = set()
+        self.edits = {}        # in-place edits between queries of a history, by kind
+        self.hist = {"histories": 0, "fully_validated": 0, "rejected_at_query": 0, "abandoned_at_edit": 0}
         self.forms = {}        # role:form -> number of real calls with an atom passed in that AtomLike form
         self.by_label = {}
         self.max_atoms = 0
@@ -154,7 +175,16 @@ class Tally:
         self.max_atoms = max(self.max_atoms, gev["n"])
         d = self.by_label.setdefault(label, {"graphs": 0, "queries": 0})
         d["graphs"] += 1
+        if tr.get("hist"):
+            self.hist["histories"] += 1
         for e in tr["ev"][1:]:
+            if e["ev"] in SETUP_EVENTS:
+                if e["ev"] in ("edit", "pedit"):
+                    k = ("pattern " if e["ev"] == "pedit" else "") + e["op"]
+                    self.edits[k] = self.edits.get(k, 0) + 1
+                if e["ev"] == "edit":
+                    gev = {"ev": "graph", "n": e["n"], "el": e["el"], "bonds": e["bonds"]}
+                continue
             self.events[e["ev"]] = self.events.get(e["ev"], 0) + 1
             d["queries"] += 1
             if e["ev"] == "bfs":
@@ -168,7 +198,7 @@ class Tally:
             if e["ev"] == "local":
                 for k in e.get("fa", ()):
                     self.forms[f"atom-argument:{k}"] = self.forms.get(f"atom-argument:{k}", 0) + 1
-            if e["ev"] == "match":
+            if e["ev"] in ("match", "matchp"):
                 self.maps += len(e["maps"])
             if nontrivial(e):
                 self.distinct.add(digest(gev, e))
@@ -196,7 +226,7 @@ def lane(pool, job, tally, lock):
     label, fn, args = job
     traces = pool.submit(fn, *args).result()
     verdicts, results = validate(traces, "c15tr")
-    bad, keep = [], []
+    bad, keep, skipped = [], [], []
     why = reasons(results)
     with lock:
         for r in results:
@@ -205,12 +235,21 @@ def lane(pool, job, tally, lock):
         for t in traces:
             tally.add(label, t)
             v = verdicts[t["tid"]]
-            if v[0] != "ACCEPT":
+            if v[0] != "ACCEPT" and t.get("hist") and v[1] and t["ev"][v[1] - 1]["ev"] in SETUP_EVENTS:
+                # the EDIT (not a query) did not produce the graph the model expects: not a matter of C15;
+                # the rest of this history is not judged
+                tally.hist["abandoned_at_edit"] += 1
+                skipped.append((t["tid"], t["ev"][v[1] - 1]))
+            elif v[0] != "ACCEPT":
                 bad.append((label, t, v[1], why.get(t["tid"])))
+                if t.get("hist"):
+                    tally.hist["rejected_at_query"] += 1
+            elif t.get("hist"):
+                tally.hist["fully_validated"] += 1
             elif len(keep) < 12 and int(hashlib.md5(t["tid"].encode()).hexdigest(), 16) % 5 == 0:
                 keep.append({"tid": t["tid"], "ev": t["ev"]})
     bad.sort(key=size_key)
-    return bad[:20], len(bad), keep
+    return bad[:20], len(bad), keep, skipped[:3]
 
 
 def size_key(b):
@@ -222,7 +261,25 @@ def failing_query(tr, l):
     """Event number l of the trace (1 = the graph) -> the query that produced it."""
     if l is None or l < 2 or l > len(tr["ev"]):
         return None, (tr["ev"][l - 1] if l and 1 <= l <= len(tr["ev"]) else None)
+    if tr.get("hist"):                       # events: graph, pattern, then one per script step
+        return (tr["script"][l - 3] if l >= 3 else None), tr["ev"][l - 1]
     return tr["queries"][l - 2], tr["ev"][l - 1]
+
+
+def describe_history(t, l):
+    e = t["ev"][l - 1]
+    edits = [f"{'pattern ' if x['ev'] == 'pedit' else ''}{x['op']}" + (f"(atom {x['a']} -> {x['e']})" if x["op"] == "relabel" else
+             f"({x['a']},{x['b']})" if x["op"] == "connect" else f"(bond {x['i']})" if x["op"] in ("delbond", "rebond") else
+             f"(atom {x['a']})" if x["op"] in ("delatom", "label") else f"({x['e']})")
+             for x in t["ev"][:l - 1] if x["ev"] in ("edit", "pedit")]
+    cur = [x for x in t["ev"][:l - 1] if x["ev"] in ("graph", "edit")][-1]
+    now = {"n": cur["n"], "el": cur["el"], "bonds": [[a, b, "?"] for a, b, _ in cur["bonds"]]}
+    if e["ev"] == "matchp":
+        what = (f"graph n={now['n']} el={now['el']} bonds={[(a, b) for a, b, _ in now['bonds']]}: {e['api']} of the pattern object "
+                f"(el={e['pel']}, bonds={t['pattern']['bonds']}) returned {len(e['maps'])} maps {e['maps'][:6]}")
+    else:
+        what = describe(now, None, e)
+    return f"{t['case'].get('cls')} object after the in-place edits {edits}: {what}"
 
 
 def describe(case, q, e):
@@ -349,6 +406,7 @@ def run(tier, seed, replay_path):
     jobs = plan(tier, seed)
     lock = threading.Lock()
     nbad = 0
+    skipped = []
     # spawn (not fork): the pool is used from several threads, and a fork while another thread holds the import
     # lock leaves the child blocked for ever; the children are started and import molli before any thread exists
     with ProcessPoolExecutor(PROCS, mp_context=multiprocessing.get_context("spawn")) as pool, \
@@ -358,11 +416,17 @@ def run(tier, seed, replay_path):
         fmodel = lanes.submit(model_runs, ev, tier)
         futs = [lanes.submit(lane, pool, j, tally, lock) for j in jobs]
         for f in as_completed(futs):
-            b, nb, k = f.result()
+            b, nb, k, sk = f.result()
+            skipped += sk
             bad += b
             nbad += nb
             keep += k
         del futs
+        h = tally.hist
+        for tid, e in skipped[:3]:
+            rep.note(f"history {tid}: edit outside the model (not judged by C15): {json.dumps(e)[:300]}")
+        if h["histories"] and h["abandoned_at_edit"] * 2 > h["histories"]:
+            raise tlc.MachineryError(f"vacuity guard: most histories were abandoned at an edit: {h}")
         need = [f"{r}:{f}" for r in ("start", "direction", "atom-argument") for f in G.FORMS] + \
                ["direction passed as the integer 0", "start passed as the integer 0"]
         if any(tally.forms.get(k, 0) < 20 for k in need):
@@ -385,13 +449,19 @@ def run(tier, seed, replay_path):
     reported = {}
     for label, t, l, why in bad:
         q, e = failing_query(t, l)
-        sig = (e or {}).get("ev"), (e or {}).get("api"), (e or {}).get("mode")
+        sig = (e or {}).get("ev"), (e or {}).get("api"), (e or {}).get("mode"), bool(t.get("hist"))
         if sig in reported:
             reported[sig] += 1
             continue
         if len(reported) >= 8:
             continue
         reported[sig] = 1
+        if t.get("hist"):
+            rep.violation("graphq-history", {"case": t["case"], "pattern": t["pattern"], "flavour": t["flavour"],
+                                             "script": t["script"][:l - 2], "event": e, "stuck_at": l, "why": why,
+                                             "where": label, "tier": tier, "seed": seed},
+                          what=f"no step of GraphQ explains: {describe_history(t, l)}"[:900])
+            continue
         rep.violation("graphq-trace", {"case": t["case"], "query": q, "event": e, "stuck_at": l, "why": why, "where": label,
                                        "tier": tier, "seed": seed},
                       what=(f"no step of GraphQ explains: {describe(t['case'], q, e)}"
@@ -402,7 +472,7 @@ def run(tier, seed, replay_path):
                 "valence listing, one match call with its full result list) validated by TLC against GraphQ; "
                 "distinct_nontrivial = distinct (graph, query) pairs whose answer is not forced (traversal with >= 2 yields, "
                 "ring flag, atom with a neighbour, pattern with >= 2 atoms)",
-           queries=tally.events, atomlike_forms=tally.forms, yields_validated=tally.yields, mappings_validated=tally.maps, graphs=tally.graphs,
+           queries=tally.events, histories=tally.hist, edits_between_queries=tally.edits, atomlike_forms=tally.forms, yields_validated=tally.yields, mappings_validated=tally.maps, graphs=tally.graphs,
            max_atoms=tally.max_atoms, workload=tally.by_label, rejected_traces=nbad, deviations_caught=devs,
            exhaustive=True,
            exhaustive_scope=f"every labelled graph on <= {6 if tier == 'thorough' else 5} atoms x every start x every direction "
@@ -431,6 +501,9 @@ def run(tier, seed, replay_path):
         "order of yields inside one distance level, order of result lists, exception-free construction are not constrained",
         "atoms are passed to the queries as Atom objects, integer indices (0 included) and unique labels, rotating per query; "
         "the Element form (first atom of that element) is not used",
+        "histories: element / label / bond-type edits in place and connect / del_bond on every class, append_atom / del_atom on "
+        "Connectivity only; after an edit the bond-list order is free, atoms keep their relative order; an edit whose visible "
+        "result is not the edited graph is reported as a note and the rest of that history is not judged (edits are not C15)",
         "trusted: TLC, the Json module, the adapter's position bookkeeping",
     ]
     rep.note(f"{tally.graphs} graphs (max {tally.max_atoms} atoms), {nq} queries {tally.events}, {tally.yields} yields, "
@@ -440,6 +513,17 @@ def run(tier, seed, replay_path):
 
 def do_replay(path):
     doc = json.loads(open(path).read())
+    if doc.get("kind") == "graphq-history":
+        evs, script = G.history(doc["case"], doc["pattern"], doc["flavour"], script=doc["script"])
+        t = {"tid": "replay", "ev": evs, "case": doc["case"], "pattern": doc["pattern"], "script": script, "hist": True}
+        verdicts, results = T.validate("GraphQTrace", [{"tid": "replay", "ev": evs}], TRACE_CFG, tag="c15rp")
+        v = verdicts["replay"]
+        print(json.dumps({"events": evs[-4:], "verdict": v})[:3000])
+        if v[0] != "ACCEPT" and evs[v[1] - 1]["ev"] not in SETUP_EVENTS:
+            print(f"VIOLATION property={PROP} replay={path}")
+            print(f"  no step of GraphQ explains: {describe_history(t, v[1])}"[:900])
+            return 1
+        return 0
     case, q = doc["case"], doc["query"]
     if q is None:
         evs = G.record(case, [])
